@@ -30,6 +30,7 @@ Tok ==
       OD |-> T("dynamic", 7, <<>>, {}, {}, 0, <<>>),
       OP |-> T("phantom", 1, <<>>, {}, {}, 0, <<>>),
       OE |-> T("env", 6, <<>>, {}, {}, 0, <<>>),
+      OQ |-> T("static", 4, <<>>, {}, {}, 0, <<>>),      \* an obstacle holding the id that lanelets LC / LD name as a sign (dangling reference)
       NA |-> T("network", 0, <<>>, {}, {}, 0, <<"LA", "LC", "SA", "TA", "XA">>),
       NB |-> T("network", 0, <<>>, {}, {}, 0, <<"LD", "SB">>),
       NC |-> T("network", 0, <<>>, {}, {}, 0, <<"LA", "LC", "SB">>) ]     \* inner collision: LC and SB share id 2
